@@ -132,6 +132,8 @@ class Shapes:
                 return self.shape(b, want)
         if tag == "payload" and t[2] == "ok":
             inner = t[1]
+            if svd_ctor_term(t) is not None:
+                return self.shape(svd_ctor_term(t)[0])
             if inner[0] == "call":
                 if inner[1] in (TRAIT_MODEL + "::eval", TRAIT_MODEL + "::eval_partial_deriv"):
                     m = model_id(inner[3][0])
@@ -209,7 +211,7 @@ class Shapes:
                 return (("len", nosite(args[0])), ONE)
             if last == "component_mul" and len(args) == 2:
                 return self.shape(args[0])
-            if cid.endswith("svd") or last in ("svd", "try_svd"):
+            if svd_ctor_term(t) is not None:
                 return self.shape(args[0])
             if last in ("map", "scale", "abs", "clone", "clone_owned", "into_owned"):
                 return self.shape(args[0], want)
@@ -265,8 +267,8 @@ class Shapes:
         t0 = nosite(t)
         if ("svdarg", t0) in self.ax:
             return self.ax[("svdarg", t0)]
-        if t[0] == "call" and t[1].rsplit("::", 1)[-1] in ("svd", "try_svd", "svd_unordered", "new"):
-            return t[3][0]
+        if svd_ctor_term(t) is not None:
+            return svd_ctor_term(t)[0]
         raise ShapeError("SVD value of unknown provenance: %s" % short(t)[:80])
 
     def wsize(self, w):
